@@ -19,6 +19,7 @@ import Alpaqa.Proofs.PanocLoop
 import Alpaqa.Props.C06_Panoc
 import Alpaqa.Props.C03
 import Alpaqa.Gen.C19
+import Alpaqa.Proofs.PanocLoopExample
 
 namespace Alpaqa.Props.C19Panoc
 open Alpaqa Alpaqa.Panoc Alpaqa.Gen Alpaqa.Gen.C19 Alpaqa.Props.C06
@@ -88,8 +89,9 @@ theorem stop_monotone_of_history (hist : List FlagAccess)
       rw [List.take_take, Nat.min_eq_left hst]
     rw [← h1]
     exact (List.take_append_drop s (hist.take t)).symm
-  simp only [] at hs ⊢
-  rw [e, flagAfter_append, hs]
+  have hs' : flagAfter false (hist.take s) = true := hs
+  show flagAfter false (hist.take t) = true
+  rw [e, flagAfter_append, hs']
   apply flag_stays_set
   intro o ho
   exact h o (List.mem_of_mem_take (List.mem_of_mem_drop ho))
@@ -121,7 +123,7 @@ theorem stop_at_head_exits (P : Problem α) (dir : Direction D α) (pr : Params 
       exitBlock P pr (headStep P pr stop oot s).1 (headStep P pr stop oot s).2.1
         (headStep P pr stop oot s).2.2 x0 y Sig errz0 := by
     rw [mainLoop]
-    simp only []
+    try simp only []
     rw [if_pos (by simpa using hnb)]
   refine ⟨hnb, he, ?_, ?_⟩
   · rw [he]; exact (exitBlock_fields P pr _ _ _ x0 y Sig errz0).2.2.2.2.2
@@ -187,7 +189,7 @@ theorem mainLoop_ticks_after_stop (P : Problem α) (dir : Direction D α) (pr : 
     · have hst' : stop (headStep P pr stop oot s).1.tick = false := by simpa using hst
       have hlt := lt_of_not_stop hm h0 hst'
       rw [mainLoop]
-      simp only []
+      try simp only []
       split_ifs with hb
       · have := (exitBlock_fields P pr (headStep P pr stop oot s).1 (headStep P pr stop oot s).2.1
           (headStep P pr stop oot s).2.2 x0 y Sig errz0).2.2.2.2.2
@@ -215,7 +217,11 @@ theorem at_most_one_iteration_after_stop (P : Problem α) (dir : Direction D α)
       max (initTicks P d0 pr x0 gV gS + 4) (t0 + 7) := by
   unfold run initTicks
   cases hi : initState P d0 pr x0 gV gS with
-  | inl t => simp only []; omega
+  | inl t =>
+    have := initState_ticks P d0 pr x0 gV gS
+    rw [hi] at this
+    simp only [] at this ⊢
+    omega
   | inr s =>
     simp only []
     exact mainLoop_ticks_after_stop P dir pr stop hm t0 h0 oot x0 y Sig errz0 _ s
@@ -225,28 +231,9 @@ theorem at_most_one_iteration_after_stop (P : Problem α) (dir : Direction D α)
 theorem initTicks_eq (P : Problem α) (d0 : D) (pr : Params α) (x0 gV : Vec α) (gS : α) (s : St α D)
     (h : initState P d0 pr x0 gV gS = .inr s) :
     s.tick = (if pr.L0 ≤ 0 then 2 else 1) + 2 + 2 * s.stats.stepsizeBacktracks := by
-  have key : ∀ (f : Nat) (c : Iterate α) (t b : Nat),
-      (initQub P pr f c t b).2.1 + 2 * b = t + 2 * (initQub P pr f c t b).2.2.1 := by
-    intro f
-    induction f with
-    | zero => intro c t b; simp [initQub]
-    | succ f ih =>
-      intro c t b
-      unfold initQub
-      split_ifs
-      · have := ih (evalPsiHat P pr (evalProxGradStep P { c with gamma := c.gamma / 2, L := c.L * 2 }))
-          (t + 2) (b + 1)
-        omega
-      · simp
-  unfold initState at h
-  simp only [] at h
-  split_ifs at h with h1 h2 h3
-  all_goals first
-    | (injection h with h; subst h; simp only [stats0]
-       have := key pr.lsFuel _ _ 0
-       simp only [] at this ⊢
-       omega)
-    | (exact absurd h (by simp))
+  have := initState_ticks P d0 pr x0 gV gS
+  rw [h] at this
+  exact this
 
 /-! ### Interrupted or natural status -/
 
@@ -312,7 +299,7 @@ theorem mainLoop_fuel_suffices (P : Problem α) (dir : Direction D α) (pr : Par
   | succ f ih =>
     have hf := headStep_fields P pr stop oot s
     rw [mainLoop]
-    simp only []
+    try simp only []
     split_ifs with hb
     · rw [(exitBlock_fields P pr _ _ _ x0 y Sig errz0).1, (headStep_status P pr stop oot s).2]
       exact never_exception _ _ _ _ _ _ _ _
@@ -356,5 +343,28 @@ theorem outputs_consistent (P : Problem α) (dir : Direction D α) (d0 : D) (pr 
     (hfuel : (run P dir d0 pr stop oot x0 y Sig errz0 gV gS).fuelOut = false) :
     ExitOK P x0 y Sig errz0 (run P dir d0 pr stop oot x0 y Sig errz0 gV gS) :=
   C03.panoc_exit_contract P dir d0 pr stop oot x0 y Sig errz0 gV gS hfuel
+
+/-! ### Non-vacuity -/
+
+section examples
+open Alpaqa.Panoc.Example
+
+example : StopMono (stopAt (some 7)) := by
+  intro s t h hs
+  simp only [stopAt, decide_eq_true_eq] at *
+  omega
+
+/-- flag visible from tick 7: the run ends Interrupted at tick 9 ≤ 7 + 7, still in iteration 0,
+    while the undisturbed run takes 18 ticks and two iterations. -/
+example : (rq (some 7)).stats.status = .Interrupted ∧ (rq (some 7)).ticks = 9 ∧
+    (rq (some 7)).ticks ≤ max (initTicks Pq () prq [1] [] 0 + 4) (7 + 7) ∧
+    (rq (some 7)).fuelOut = false ∧ (rq (some 7)).stats.iterations = 0 ∧
+    (rq none).ticks = 18 ∧ (rq none).stats.iterations = 2 := by decide +kernel
+
+/-- a history of accesses as they occur in the source: once set, the flag stays set -/
+example : flagAfter false [.load, .store (some true), .load, .store (some true), .load] = true := by
+  decide
+
+end examples
 
 end Alpaqa.Props.C19Panoc
